@@ -84,7 +84,7 @@ def _later(c, ev_time, cut, L):
     return (ev_time - cut).total_seconds() > L
 
 
-def _check_sym(c, ep, label, terms, decisions_upto, cut, L, pv):
+def _check_sym(c, ep, label, terms, decisions_upto, cut, L, pv, decisions_from=0):
     """Stage 1 (syntactic occurrence + feasibility of 'later') and stage 2 (self-composition)."""
     suspects = {}
     for t in terms:
@@ -92,7 +92,7 @@ def _check_sym(c, ep, label, terms, decisions_upto, cut, L, pv):
             if n in pv:
                 suspects.setdefault(n, []).append(t)
     dec_suspects = {}
-    for cj in c.pc[:decisions_upto]:
+    for cj in c.pc[decisions_from:decisions_upto]:
         if cj.tag != "dec":
             continue
         for n in _conj_vars(c, cj):
@@ -194,6 +194,13 @@ def _harness(c, cfg):
     cfg = dict(cfg, sym_prices=True, sym_payload=True)
     ep = Episode(c, cfg)
     try:
+        for name in (cfg.get("fold_sequence") or [None])[:-1]:
+            ep.use_fold(name)
+            _run(ep)                          # earlier episodes on other folds of the same environment
+            del ep.log[:]
+        if cfg.get("fold_sequence"):
+            ep.use_fold(cfg["fold_sequence"][-1])
+        pc0 = len(c.pc) if c.mode == "sym" else 0      # decisions of earlier episodes are not this one's
         outs = _run(ep)
     except EndOfEpisodeError:
         c.out_of_scope("ruin (C09)")
@@ -205,7 +212,8 @@ def _harness(c, cfg):
             terms = []
             _collect(out, terms)
             # everything returned/recorded by the time the interaction lands on `landed`
-            _check_sym(c, ep, "C02:outputs-up-to-t-independent-of-data-stamped-after-t", terms, npc, landed, None, pv)
+            _check_sym(c, ep, "C02:outputs-up-to-t-independent-of-data-stamped-after-t", terms, npc, landed, None, pv,
+                       decisions_from=pc0)
             # the trades executed in the FOLLOWING step depend on nothing stamped after t + latency
             if k + 1 < len(outs):
                 nxt = outs[k + 1][0]
@@ -223,6 +231,12 @@ def _harness(c, cfg):
                                    (ep.L, "C02:next-execution-independent-of-data-stamped-after-t+latency")):
                 ep2 = Episode(c, cfg, inputs=_AlteredInputs(ep.inp, ep, landed, cut_lat))
                 try:
+                    for name in (cfg.get("fold_sequence") or [None])[:-1]:
+                        ep2.use_fold(name)
+                        _run(ep2)
+                        del ep2.log[:]
+                    if cfg.get("fold_sequence"):
+                        ep2.use_fold(cfg["fold_sequence"][-1])
                     outs2 = _run(ep2)
                 except (EndOfEpisodeError, StopIteration):
                     outs2 = []
@@ -288,6 +302,9 @@ def configs(tier):
     add(N=3, M=1, latency="sym", free_kinds=["quote"], fold="sym")
     add(N=3, M=1, latency="zero", free_kinds=["quote"], feature=True)
     add(N=3, M=1, latency="sym", free_kinds=["quote"], reward="RewardLogReturn")
+    add(N=3, M=0, latency="zero", fold="two", fold_sequence=["test-set", "training-set"], markov=True)
+    add(N=3, M=0, latency="zero", fold="two", fold_sequence=["training-set", "test-set"], markov=True)
+    add(N=3, M=1, latency="sym", free_kinds=["quote"], fold="two", fold_sequence=["test-set", "training-set"])
     if tier == "thorough":
         add(N=4, M=1, latency="sym", free_kinds=["quote"])
         add(N=3, M=2, latency="sym", free_kinds=["quote", "ping"])
